@@ -24,7 +24,7 @@ from .. import pricebox as solverbox
 from ..core import Case, q2s
 
 RULE = ("approval elections with 1..4 voters, 1..4 projects, integer costs 1..4 (occasionally 0), integer budgets on subset sums; "
-        "validator: exact LP witnesses and Equal Shares price systems x 9 kinds of margin-0.1 breakage; search: every subset x "
+        "validator: exact LP witnesses and Equal Shares price systems x 10 kinds of margin-0.1 breakage; search: every subset x "
         "stable/plain x exhaustive on/off + searched mode; non-trivial = >=2 voters, >=2 projects, a non-empty allocation and both "
         "verdicts occur for the election; distinct by case+allocation+flags")
 ASSUMPTIONS = [
@@ -203,6 +203,19 @@ def mutate(rng, case: Case, W, b, pf, stable, kind, d):
         left = sum((b - sum((pf[i][x] for x in names), F(0)) for i in sup), F(0))
         t = max(F(0), (need - left) / len(sup))
         b = b + t
+    elif kind == "C1cancel":
+        # payments for an UNSELECTED project that cancel across two voters (+d and -d): the column sum stays 0 (C4 holds),
+        # but one voter pays a negative amount and, when possible, the other one pays for a project they did not approve
+        un = [c for c in names if c not in Wset]
+        if not un or n < 2:
+            return None
+        c = rng.choice(un)
+        non = [i for i in range(n) if c not in case.ballots[i]]
+        i = rng.choice(non) if non else rng.randrange(n)
+        j = rng.choice([k for k in range(n) if k != i])
+        pf[i][c] += d
+        pf[j][c] -= d
+        b = b + d
     elif kind == "Cneg":
         opts = [(i, j, c) for c in W for i in range(n) for j in range(n) if i != j and c in case.ballots[i] and c in case.ballots[j]]
         if not opts:
@@ -239,7 +252,7 @@ def validator_part(ctx, n_elections, lines):
         rng.shuffle(systems)
         for W, b, pf, stable, exhaustive, origin in systems[:6]:
             variants = [("exact", (W, b, pf))]
-            for kind in ("C1", "C2", "C3+", "C3-", "C4", "C5", "Cneg"):
+            for kind in ("C1", "C2", "C3+", "C3-", "C4", "C5", "Cneg", "C1cancel"):
                 d = rng.choice([F(1, 10), F(1, 10), F(11, 100), F(1, 5), F(1, 2), F(1), F(7, 3)])
                 mu = mutate(rng, case, W, b, pf, stable, kind, d)
                 if mu is not None:
@@ -449,9 +462,15 @@ def one_search(ctx, box, case: Case, W, stable, exhaustive, part="search"):
         fault_sample(ctx, case, cfg, ans, M, D)
         return None
     if success != M:
-        ctx.solver_faults += 1
+        # either CBC is wrong about the model it was given (a solver fault: isolated, discarded) or the library no longer
+        # builds the model this harness re-derived from the definition (systematic).  Decided at the end of the run by
+        # the number of such cases: see `settle_suspects`.
         ctx.count("solver_fault", "claims_" + ans["status"].lower() + "_model_is_" + ("feasible" if M else "infeasible"))
         fault_sample(ctx, case, cfg, ans, M, D)
+        ctx.extra.setdefault("_suspects", []).append({
+            "what": f"priceable reports {'success' if success else 'failure'} although a price system {'exists' if D else 'does not exist'} "
+                    f"(exact rational oracle) for allocation {W}", "case": case.to_json(), "cfg": cfg, "impl": ans.get("status"), "expected": D,
+            "sig": dict(sig, kind="search_vs_oracle")})
         return None
     if success:
         A = ans["alloc"]
@@ -541,9 +560,20 @@ def run(ctx):
         search_part(ctx, box, ctx.scale(120, 1500), modes_cap=ctx.scale(40, None))
         mes_part(ctx, box, ctx.scale(300, 3000))
     finally:
-        ctx.solver_faults += 0
+        settle_suspects(ctx)
         ctx.extra["solver_fault_kinds"] = dict(box.fault_kinds)
         box.close()
+
+
+def settle_suspects(ctx, threshold=3):
+    """search verdicts that contradict the exact oracle: a handful per 100 000 calls are CBC hiccups (discarded and counted);
+    three or more in one run are a systematic disagreement between the library's search and the definition -> violations"""
+    sus = ctx.extra.pop("_suspects", [])
+    ctx.extra["search_vs_oracle_suspects"] = len(sus)
+    if len(sus) >= threshold:
+        ctx.violations.extend(sus[:20])
+    else:
+        ctx.solver_faults += len(sus)
 
 
 def search(ctx, disagreements):
